@@ -90,6 +90,24 @@ func expandFact(f Fact) []Fact {
 
 func expandFactN(f Fact, seen map[Fact]bool) []Fact {
 	out := []Fact{f}
+	// a true value read from a memo table is the value that was computed for that key (memo.go)
+	if f.Pol && !seen[f] {
+		var lk *ssa.Lookup
+		switch x := f.Cond.(type) {
+		case *ssa.Lookup:
+			lk = x
+		case *ssa.Extract:
+			if l, ok := x.Tuple.(*ssa.Lookup); ok && x.Index == 0 {
+				lk = l
+			}
+		}
+		if lk != nil {
+			if mv := memoValue(lk); mv != nil {
+				seen[f] = true
+				return append(out, expandFactN(normFact(mv, true), seen)...)
+			}
+		}
+	}
 	phi, contradicts := phiFact(f)
 	if phi == nil {
 		return out
